@@ -62,3 +62,45 @@ class EventLoop(Unit):
         if prog[0] != "loop" and qu:
             return "items left in the queue: " + summary
         return None
+
+class AtomicQueue(Unit):
+    """real atomic_intrusive_queue<Item,&Item::next> vs coq/Proto/AtomicQueueDefs.v"""
+    name = "atomic_queue/AtomicQueue"; driver = "k1_atomic_queue"; cfg = "shim17"; handler = "atomicqueue"
+    maxruns = {"quick": 1500, "thorough": 40000}
+    nrandom = {"quick": 150, "thorough": 2000}
+    def programs(self, tier):
+        if tier == "quick":
+            return [("active", "1", "MF"), ("active", "2", "MMF"), ("active", "1,1", "MF"), ("active", "1,1", "MMF"),
+                    ("active", "2,1", "MDMF"), ("active", "1,1,1", "MMF"), ("active", "2,2", "IDMF"),
+                    ("active", "1,1", "IADF"), ("active", "1,1", "DDF"), ("inactive", "1,1", "MF"),
+                    ("inactive", "2,1", "DMF"), ("inactive", "1", "AMF"), ("active", "2,1,1", "MMMF")]
+        progs = []
+        for init in ("active", "inactive"):
+            for counts in ("1", "2", "3", "1,1", "2,1", "2,2", "1,1,1", "2,1,1", "2,2,2", "3,3", "1,1,1,1"):
+                for scr in ("F", "MF", "MMF", "MMMF", "IDF", "IADF", "DDF", "MDMDF", "IMAMF", "AF", "AMMF"):
+                    progs.append((init, counts, scr))
+        return progs
+    def model_args(self, prog):
+        return "%d %s %s" % (1 if prog[0] == "active" else 0, prog[1], prog[2])
+    def project(self, prog, events):
+        out = []
+        for e in events:
+            m = re.match(r"t(\d+) (\S+) ?(.*)$", e)
+            t, name, rest = int(m.group(1)), m.group(2), m.group(3)
+            if name == "q.head":
+                out.append((t, "head " + rest))
+            elif name == "!wake":
+                out.append((t, "wake " + rest))
+            elif name == "!batch":
+                out.append((t, "batch [%s]" % rest.strip()))
+        return out
+    def post_check(self, prog, summary, proj):
+        if "final=1" not in summary:
+            return "model not final at the end of a complete implementation run: " + summary
+        m = re.search(r"delivered=(\S*) enq=(\S*) stack=(\S*) ", summary)
+        if prog[2].endswith("F") and (m.group(1) != m.group(2) or m.group(3)):
+            return "after the final drain delivered != enqueued: " + summary
+        total = sum(int(x) for x in prog[1].split(","))
+        if len([x for x in m.group(2).split(",") if x]) != total:
+            return "not every enqueue took effect: " + summary
+        return None
